@@ -176,8 +176,20 @@ QNODES = {
 }
 
 
+SPLITS = {1: ([0], [1, 2, 3]), 2: ([0, 2], [1, 3])}  # positions of (pa, pb) inside p; split 2: the trainable p0, p2 do NOT commute
+
+
+def merge(split, pa, pb):
+    out = [None] * 4
+    for i, k in enumerate(SPLITS[split][0]):
+        out[k] = pa[i]
+    for i, k in enumerate(SPLITS[split][1]):
+        out[k] = pb[i]
+    return out
+
+
 def live_qnode(split=None):
-    """QNode of the reference circuit on default.qubit; split=k: signature circuit(pa, pb) with p = pa ++ pb, len(pa) = k."""
+    """QNode of the reference circuit on default.qubit; split=k: signature circuit(pa, pb), p = merge(k, pa, pb)."""
     import pennylane as qp
 
     dev = qp.device("default.qubit", wires=[0, 1, "aux"])
@@ -198,7 +210,7 @@ def live_qnode(split=None):
     else:
 
         def circuit(pa, pb):
-            return body([pa[i] for i in range(split)] + [pb[i] for i in range(4 - split)])
+            return body(merge(split, pa, pb))
 
     return qp.QNode(circuit, dev)
 
@@ -455,7 +467,7 @@ class RefQNSPSA:
         self.h, self.f, self.F = h, f, overlap
         self.k = 1
         self.G = None
-        self.last = np.zeros(h["history_length"])
+        self.losses = []
 
     def step(self, x, dirs):
         """dirs: per resampling (h, h1, h2) arrays of +-1."""
@@ -476,9 +488,9 @@ class RefQNSPSA:
         new = x - h["stepsize"] * np.linalg.solve(self.G, grad)
         loss = self.f(x)
         accepted = True
-        if h["blocking"]:
-            self.last[(self.k - 2) % self.last.size] = loss
-            tol = 2 * self.last.std() if self.k > self.last.size else 2 * self.last[: self.k - 1].std()
+        if h["blocking"]:  # tolerance = twice the standard deviation of the losses of the last history_length steps
+            self.losses.append(loss)
+            tol = 2 * float(np.std(self.losses[-h["history_length"]:]))
             if loss + tol < self.f(new):
                 new, accepted = x, False
         return new, loss, accepted
